@@ -311,7 +311,7 @@ pub fn run(cx: &Ctx) {
     cx.run_list(&Weighted, fixed(), "F5 reproducers and the doc example");
     cx.label("generated");
     let big = cx.by(3000, 30000);
-    cx.run_pt(&Weighted, cx.by(600, 8000), cx.workers, move || wcase_strategy(3000, big), "n 1..=30000 (quick 3000), 7 zero-weight placements x 8 ingestion paths x merge trees");
+    cx.run_pt(&Weighted, cx.by(3000, 30000), cx.workers, move || wcase_strategy(3000, big), "n 1..=30000 (quick 3000), 7 zero-weight placements x 8 ingestion paths x merge trees");
 }
 
 pub fn replay(check: &str, case: &serde_json::Value) -> Option<Result<(), String>> {
